@@ -176,10 +176,106 @@ func wrongTypeProbe(it *simdjson.Iter, typ simdjson.Type) error {
 	return nil
 }
 
+// bulkAgreesWithTraversal: the bulk accessors of an Array return what reading its elements one by one returns - the
+// same values when every element converts, an error when one of them does not (arrays of up to 64 elements).
+func bulkAgreesWithTraversal(arr *simdjson.Array) error {
+	var fl []float64
+	var in []int64
+	var un []uint64
+	var ss []string
+	flOK, inOK, unOK, ssOK := true, true, true, true
+	ai := arr.Iter()
+	n := 0
+	for {
+		t := ai.Advance()
+		if t == simdjson.TypeNone {
+			break
+		}
+		if n++; n > 64 {
+			return nil
+		}
+		if v, err := ai.Float(); err == nil {
+			fl = append(fl, v)
+		} else {
+			flOK = false
+		}
+		if v, err := ai.Int(); err == nil {
+			in = append(in, v)
+		} else {
+			inOK = false
+		}
+		if v, err := ai.Uint(); err == nil {
+			un = append(un, v)
+		} else {
+			unOK = false
+		}
+		if v, err := ai.String(); err == nil {
+			ss = append(ss, v)
+		} else {
+			ssOK = false
+		}
+	}
+	// (AsFloat/AsInteger/AsUint64 advance the Array they are called on: each call gets its own copy)
+	c1 := *arr
+	if got, err := c1.AsFloat(); (err == nil) != flOK {
+		return fmt.Errorf("AsFloat() = %v, %v on an array whose elements read one by one convert to float: %v", got, err, flOK)
+	} else if err == nil {
+		if len(got) != len(fl) {
+			return fmt.Errorf("AsFloat() returned %d values, the array has %d elements", len(got), len(fl))
+		}
+		for i := range fl {
+			if mathBits(got[i]) != mathBits(fl[i]) {
+				return fmt.Errorf("AsFloat()[%d] = %v, Float() on that element = %v", i, got[i], fl[i])
+			}
+		}
+	}
+	c2 := *arr
+	if got, err := c2.AsInteger(); (err == nil) != inOK {
+		return fmt.Errorf("AsInteger() = %v, %v on an array whose elements read one by one convert to int64: %v", got, err, inOK)
+	} else if err == nil {
+		if len(got) != len(in) {
+			return fmt.Errorf("AsInteger() returned %d values, the array has %d elements", len(got), len(in))
+		}
+		for i := range in {
+			if got[i] != in[i] {
+				return fmt.Errorf("AsInteger()[%d] = %v, Int() on that element = %v", i, got[i], in[i])
+			}
+		}
+	}
+	c3 := *arr
+	if got, err := c3.AsUint64(); (err == nil) != unOK {
+		return fmt.Errorf("AsUint64() = %v, %v on an array whose elements read one by one convert to uint64: %v", got, err, unOK)
+	} else if err == nil {
+		if len(got) != len(un) {
+			return fmt.Errorf("AsUint64() returned %d values, the array has %d elements", len(got), len(un))
+		}
+		for i := range un {
+			if got[i] != un[i] {
+				return fmt.Errorf("AsUint64()[%d] = %v, Uint() on that element = %v", i, got[i], un[i])
+			}
+		}
+	}
+	c4 := *arr
+	if got, err := c4.AsString(); (err == nil) != ssOK {
+		return fmt.Errorf("AsString() = %q, %v on an array whose elements read one by one are strings: %v", got, err, ssOK)
+	} else if err == nil {
+		if len(got) != len(ss) {
+			return fmt.Errorf("AsString() returned %d values, the array has %d elements", len(got), len(ss))
+		}
+		for i := range ss {
+			if got[i] != ss[i] {
+				return fmt.Errorf("AsString()[%d] = %q, String() on that element = %q", i, got[i], ss[i])
+			}
+		}
+	}
+	return nil
+}
+
 // w1State: per-walk state of W1. The destination Objects/Arrays handed to Iter.Object(dst)/Iter.Array(dst) are
 // recycled per nesting depth; a state that is kept across walks (C15 does that for all walks of one case) makes every
 // walk use destinations that served another document - possibly on the same, reused ParsedJson - before.
 type w1State struct {
+	bulk   int
 	probes int
 	depth  int
 	objs   []*simdjson.Object
@@ -212,7 +308,7 @@ func walkW1State(pj *simdjson.ParsedJson, st *w1State) ([]byte, error) {
 	it := pj.Iter()
 	var out []byte
 	n := 0
-	st.probes, st.depth = 0, 0
+	st.probes, st.depth, st.bulk = 0, 0, 0
 	for {
 		typ := it.Advance()
 		if typ == simdjson.TypeNone {
@@ -280,6 +376,12 @@ func (st *w1State) value(out []byte, it *simdjson.Iter, typ simdjson.Type) ([]by
 		ft := arr.FirstType()
 		if first != (ft == simdjson.TypeNone) {
 			return out, fmt.Errorf("W1: FirstType() = %v but array empty = %v", ft, first)
+		}
+		if st.bulk < 6 {
+			st.bulk++
+			if err := bulkAgreesWithTraversal(arr); err != nil {
+				return out, fmt.Errorf("W1: %v", err)
+			}
 		}
 		return append(out, ']'), nil
 	case simdjson.TypeObject:
